@@ -267,6 +267,31 @@ func fmtT(t time.Time, loc *time.Location) string {
 
 const strictSpan = 1825 * 86400 // shorter than any five calendar years
 
+// selfCheck cross-examines the reference on a sample of short searches: every
+// second from t+1 to the answer is converted with Time.In and its fields are
+// tested one by one; the first hit must be the answer. A disagreement is a
+// harness error, never a verdict on kit.
+func selfCheck(rs *refSched, z *zone, t time.Time, ans refAnswer) {
+	if ans.want.IsZero() || ans.want.Unix()-t.Unix() > 86400+7200 || (t.UnixNano()/7)%48 != 0 {
+		return
+	}
+	for u := t.Unix() + 1; u <= ans.want.Unix(); u++ {
+		x := time.Unix(u, 0).In(z.loc)
+		domM := rs.set[fDom]&(1<<uint(x.Day())) != 0
+		dowM := rs.set[fDow]&(1<<uint(x.Weekday())) != 0
+		dayM := domM || dowM
+		if rs.domAny || rs.dowAny {
+			dayM = domM && dowM
+		}
+		hit := dayM && rs.set[fMonth]&(1<<uint(x.Month())) != 0 && rs.set[fHour]&(1<<uint(x.Hour())) != 0 &&
+			rs.set[fMin]&(1<<uint(x.Minute())) != 0 && rs.set[fSec]&(1<<uint(x.Second())) != 0
+		if hit != (u == ans.want.Unix()) {
+			rec.Fatalf("reference self-check failed: zone %s t=%d sets=%x flags=%v/%v: second %d (%s) hit=%v but the reference answered %d", z.name, t.Unix(), rs.set, rs.domAny, rs.dowAny, u, x, hit, ans.want.Unix())
+		}
+	}
+	rec.Count("reference.self_checked_by_brute_force", 1)
+}
+
 // checkNext judges Next(t) for a parsed spec schedule. z is the zone the
 // schedule is read in (its TZ prefix, else the location of t).
 func checkNext(idx int, p parsed, z *zone, t time.Time) (ran bool) {
@@ -276,6 +301,7 @@ func checkNext(idx int, p parsed, z *zone, t time.Time) (ran bool) {
 	if !ans.want.IsZero() {
 		endU = ans.want.Unix()
 	}
+	selfCheck(rs, z, t, ans)
 	crossesSkip := len(z.skipped) > 0 && z.crossesSkippedDay(t.Unix(), endU)
 	if crossesSkip && hangKnown {
 		rec.Count("next.not_run.crosses_skipped_day_after_hang_witnessed", 1)
@@ -338,13 +364,8 @@ func checkNext(idx int, p parsed, z *zone, t time.Time) (ran bool) {
 		}
 		trs := z.between(from, hi)
 		class := classify(trs)
-		if offT%60 != 0 {
-			class = "sub-minute-offset"
-		}
-		for _, tr := range trs {
-			if tr.before%60 != 0 || tr.after%60 != 0 {
-				class = "sub-minute-offset"
-			}
+		if len(trs) == 0 && offT%60 != 0 {
+			class = "no-transition/sub-minute-offset" // a constant offset that is not a whole number of minutes (Africa/Monrovia before 1972)
 		}
 		if os.Getenv("C04_DEBUG_SIG") != "" {
 			class += "@" + z.name
@@ -392,6 +413,9 @@ func checkNext(idx int, p parsed, z *zone, t time.Time) (ran bool) {
 		rec.Count("next.result_location_differs_from_t(observed,not judged)", 1)
 	}
 	rec.Case(idx, p.o.name+"|"+p.spec+"|"+z.name+"|"+fmt.Sprint(t.UnixNano()), nontrivial)
+	if okay && nontrivial && idx%97 == 5 && rec.WantSample() {
+		rec.Sample(map[string]any{"kind": "next", "options": p.o.name, "spec": p.spec, "zone": z.name, "t": fmtT(t, z.loc), "next": fmtT(got, z.loc), "periods_searched": ans.periods})
+	}
 	return true
 }
 
@@ -693,7 +717,7 @@ func plan() ([]kase, []string) {
 			}
 		}
 	}
-	for j := 0; j < mon.Pick(700, 30000); j++ {
+	for j := 0; j < mon.Pick(700, 150000); j++ {
 		ks = append(ks, kase{kind: "seeded", a: j, zone: zones[j%len(zones)]})
 	}
 	for j := 0; j < mon.Pick(120, 2000); j++ {
@@ -1119,7 +1143,7 @@ var transOffsets = []int64{-2 * 86400, -86400, -3600, -1, 0, 1, 3600}
 func runTrans(idx int, k kase) {
 	z := getZone(k.zone)
 	rng := mon.NewRNG("c04-trans", idx)
-	nSched := mon.Pick(4, 6)
+	nSched := mon.Pick(4, 32)
 	for _, kind := range k.tr.kinds() {
 		rec.Count("plan.transition_groups."+kind, 1)
 	}
